@@ -47,6 +47,10 @@ func scalarForString(t *rapid.T, label string, o ConfigOpts) Node {
 			if rapid.IntRange(0, 3).Draw(t, label+"_oddfloat") == 0 {
 				return rapid.SampledFrom([]float64{0.00001, 123456789.5, 1e-7, 2.5e10}).Draw(t, label+"_odd")
 			}
+			if rapid.IntRange(0, 3).Draw(t, label+"_spelling") == 0 {
+				// the same number in a spelling that is not its shortest one
+				return NumLit(rapid.SampledFrom([]string{"1.0", "2.50", "1e3", "12.0", "0.50", "1.5e2", "-3.0"}).Draw(t, label+"_lit"))
+			}
 			return float64(rapid.IntRange(-500, 500).Draw(t, label+"_f")) / 4
 		}
 	}
